@@ -25,6 +25,38 @@ structure SenderCfg where
   tsOrigin : Int             -- timestamp_origin
   deriving DecidableEq, Repr
 
+/-- What `send` reads of one entry of `parameters.codecs`: payload type, `is_rtx(codec)`, `parameters["apt"]`. -/
+structure SendCodec where
+  pt : Nat
+  isRtx : Bool
+  apt : Option Nat
+  deriving DecidableEq, Repr
+
+/-- The `for codec in parameters.codecs` loop of `send` (lines 219-225): the first rtx codec whose `apt` is the
+payload type `pt0` of `codecs[0]`; `codec.parameters["apt"]` of an rtx codec without `apt` is a KeyError. -/
+def rtxScan (pt0 : Nat) : List SendCodec → Outcome (Option Nat)
+  | [] => .ok none
+  | c :: cs =>
+    if c.isRtx then
+      match c.apt with
+      | none => .crash "KeyError"
+      | some a => if a = pt0 then .ok (some c.pt) else rtxScan pt0 cs
+    else rtxScan pt0 cs
+
+/-- `__rtx_payload_type` as `send(parameters)` derives it; `parameters.codecs[0]` of an empty list is an IndexError. -/
+def rtxFor : List SendCodec → Outcome (Option Nat)
+  | [] => .crash "IndexError"
+  | c0 :: cs => rtxScan c0.pt (c0 :: cs)
+
+/-- The sender configuration `send(parameters)` establishes: the sending codec is `codecs[0]`. -/
+def SenderCfg.ofCodecs (ssrc rtxSsrc : Nat) (codecs : List SendCodec) (tsOrigin : Int) : Outcome SenderCfg :=
+  match codecs, rtxFor codecs with
+  | c0 :: _, .ok r => .ok ⟨ssrc, rtxSsrc, c0.pt, r, tsOrigin⟩
+  | [], _ => .crash "IndexError"
+  | _, .valueError => .valueError
+  | _, .crash k => .crash k
+  | _, .hang => .hang
+
 abbrev History := List (Nat × RtpPacket)
 
 structure Sender where
